@@ -1,4 +1,4 @@
-// L7: by-value / by-reference operator impls (`+ - *`) of `Uint` and `Int`
+// L7: by-value / by-reference / assigning operator impls (`+ - *`, `+= -= *=`) of `Uint` and `Int`
 // (src/uint/{add,sub,mul}.rs, src/int/{add,sub,mul,mul_uint}.rs) over the checked trait forms -- C03 C04 C13 C11 C15
 // Vocabulary (model of `subtle`, hand-declared traits): see l7_traits.rs.
 //
@@ -7,7 +7,7 @@
 // stated by the `ensures` of the extracted method.
 use vstd::prelude::*;
 use vstd::arithmetic::div_mod::*;
-use core::ops::{Add, Sub, Mul};
+use core::ops::{Add, AddAssign, Sub, SubAssign, Mul, MulAssign};
 use crate::speclib::*;
 use crate::l0_prim::*;
 use crate::l1_choice::*;
@@ -35,6 +35,18 @@ impl<'a, const LIMBS: usize> vstd::std_specs::ops::AddSpecImpl<&'a Uint<LIMBS>> 
     open spec fn add_spec(self, rhs: &'a Uint<LIMBS>) -> Uint<LIMBS> { arbitrary() }
 }
 
+impl<const LIMBS: usize> vstd::std_specs::ops::AddAssignSpecImpl<Uint<LIMBS>> for Uint<LIMBS> {
+    open spec fn obeys_add_assign_spec() -> bool { false }
+    open spec fn add_assign_req(&self, rhs: Uint<LIMBS>) -> bool { self.v() + rhs.v() < bp(LIMBS as nat) }
+    open spec fn add_assign_spec(&self, rhs: Uint<LIMBS>) -> &Self { self }
+}
+
+impl<'a, const LIMBS: usize> vstd::std_specs::ops::AddAssignSpecImpl<&'a Uint<LIMBS>> for Uint<LIMBS> {
+    open spec fn obeys_add_assign_spec() -> bool { false }
+    open spec fn add_assign_req(&self, rhs: &'a Uint<LIMBS>) -> bool { self.v() + rhs.v() < bp(LIMBS as nat) }
+    open spec fn add_assign_spec(&self, rhs: &'a Uint<LIMBS>) -> &Self { self }
+}
+
 impl<const LIMBS: usize> vstd::std_specs::ops::SubSpecImpl<Uint<LIMBS>> for Uint<LIMBS> {
     open spec fn obeys_sub_spec() -> bool { false }
     open spec fn sub_req(self, rhs: Uint<LIMBS>) -> bool { self.v() >= rhs.v() }
@@ -45,6 +57,18 @@ impl<'a, const LIMBS: usize> vstd::std_specs::ops::SubSpecImpl<&'a Uint<LIMBS>> 
     open spec fn obeys_sub_spec() -> bool { false }
     open spec fn sub_req(self, rhs: &'a Uint<LIMBS>) -> bool { self.v() >= rhs.v() }
     open spec fn sub_spec(self, rhs: &'a Uint<LIMBS>) -> Uint<LIMBS> { arbitrary() }
+}
+
+impl<const LIMBS: usize> vstd::std_specs::ops::SubAssignSpecImpl<Uint<LIMBS>> for Uint<LIMBS> {
+    open spec fn obeys_sub_assign_spec() -> bool { false }
+    open spec fn sub_assign_req(&self, rhs: Uint<LIMBS>) -> bool { self.v() >= rhs.v() }
+    open spec fn sub_assign_spec(&self, rhs: Uint<LIMBS>) -> &Self { self }
+}
+
+impl<'a, const LIMBS: usize> vstd::std_specs::ops::SubAssignSpecImpl<&'a Uint<LIMBS>> for Uint<LIMBS> {
+    open spec fn obeys_sub_assign_spec() -> bool { false }
+    open spec fn sub_assign_req(&self, rhs: &'a Uint<LIMBS>) -> bool { self.v() >= rhs.v() }
+    open spec fn sub_assign_spec(&self, rhs: &'a Uint<LIMBS>) -> &Self { self }
 }
 
 impl<const LIMBS: usize, const RHS_LIMBS: usize> vstd::std_specs::ops::MulSpecImpl<Uint<RHS_LIMBS>> for Uint<LIMBS> {
@@ -71,6 +95,18 @@ impl<'a, 'b, const LIMBS: usize, const RHS_LIMBS: usize> vstd::std_specs::ops::M
     open spec fn mul_spec(self, rhs: &'a Uint<RHS_LIMBS>) -> Uint<LIMBS> { arbitrary() }
 }
 
+impl<const LIMBS: usize, const RHS_LIMBS: usize> vstd::std_specs::ops::MulAssignSpecImpl<Uint<RHS_LIMBS>> for Uint<LIMBS> {
+    open spec fn obeys_mul_assign_spec() -> bool { false }
+    open spec fn mul_assign_req(&self, rhs: Uint<RHS_LIMBS>) -> bool { LIMBS >= 1 && RHS_LIMBS >= 1 && LIMBS + RHS_LIMBS <= usize::MAX && self.v() * rhs.v() < bp(LIMBS as nat) }
+    open spec fn mul_assign_spec(&self, rhs: Uint<RHS_LIMBS>) -> &Self { self }
+}
+
+impl<'a, const LIMBS: usize, const RHS_LIMBS: usize> vstd::std_specs::ops::MulAssignSpecImpl<&'a Uint<RHS_LIMBS>> for Uint<LIMBS> {
+    open spec fn obeys_mul_assign_spec() -> bool { false }
+    open spec fn mul_assign_req(&self, rhs: &'a Uint<RHS_LIMBS>) -> bool { LIMBS >= 1 && RHS_LIMBS >= 1 && LIMBS + RHS_LIMBS <= usize::MAX && self.v() * rhs.v() < bp(LIMBS as nat) }
+    open spec fn mul_assign_spec(&self, rhs: &'a Uint<RHS_LIMBS>) -> &Self { self }
+}
+
 // ---- Int
 
 impl<const LIMBS: usize> vstd::std_specs::ops::AddSpecImpl<Int<LIMBS>> for Int<LIMBS> {
@@ -83,6 +119,18 @@ impl<'a, const LIMBS: usize> vstd::std_specs::ops::AddSpecImpl<&'a Int<LIMBS>> f
     open spec fn obeys_add_spec() -> bool { false }
     open spec fn add_req(self, rhs: &'a Int<LIMBS>) -> bool { LIMBS >= 1 && in_range(self.iv() + rhs.iv(), LIMBS as nat) }
     open spec fn add_spec(self, rhs: &'a Int<LIMBS>) -> Int<LIMBS> { arbitrary() }
+}
+
+impl<const LIMBS: usize> vstd::std_specs::ops::AddAssignSpecImpl<Int<LIMBS>> for Int<LIMBS> {
+    open spec fn obeys_add_assign_spec() -> bool { false }
+    open spec fn add_assign_req(&self, rhs: Int<LIMBS>) -> bool { LIMBS >= 1 && in_range(self.iv() + rhs.iv(), LIMBS as nat) }
+    open spec fn add_assign_spec(&self, rhs: Int<LIMBS>) -> &Self { self }
+}
+
+impl<'a, const LIMBS: usize> vstd::std_specs::ops::AddAssignSpecImpl<&'a Int<LIMBS>> for Int<LIMBS> {
+    open spec fn obeys_add_assign_spec() -> bool { false }
+    open spec fn add_assign_req(&self, rhs: &'a Int<LIMBS>) -> bool { LIMBS >= 1 && in_range(self.iv() + rhs.iv(), LIMBS as nat) }
+    open spec fn add_assign_spec(&self, rhs: &'a Int<LIMBS>) -> &Self { self }
 }
 
 impl<const LIMBS: usize> vstd::std_specs::ops::SubSpecImpl<Int<LIMBS>> for Int<LIMBS> {
@@ -174,6 +222,28 @@ fn add(self, rhs: &Self) -> (ret__: Self)
     }
 }
 //@@ end
+//@@ fn src/uint/add.rs | impl<const LIMBS: usize> AddAssign for Uint<LIMBS> | add_assign | body | props C04 C11 C15
+impl<const LIMBS: usize> AddAssign for Uint<LIMBS> {
+fn add_assign(&mut self, other: Self)
+//@+
+    ensures final(self).v() == old(self).v() + other.v()
+//@-
+{
+        *self += &other;
+    }
+}
+//@@ end
+//@@ fn src/uint/add.rs | impl<const LIMBS: usize> AddAssign<&Uint<LIMBS>> for Uint<LIMBS> | add_assign | body | props C04 C11 C15
+impl<const LIMBS: usize> AddAssign<&Uint<LIMBS>> for Uint<LIMBS> {
+fn add_assign(&mut self, other: &Self)
+//@+
+    ensures final(self).v() == old(self).v() + other.v()
+//@-
+{
+        *self = *self + other;
+    }
+}
+//@@ end
 //@@ fn src/uint/sub.rs | impl<const LIMBS: usize> Sub for Uint<LIMBS> | sub | body | props C04 C11 C15
 impl<const LIMBS: usize> Sub for Uint<LIMBS> {
 //@+
@@ -200,6 +270,28 @@ fn sub(self, rhs: &Self) -> (ret__: Self)
 {
         self.checked_sub(rhs)
             .expect("attempted to subtract with underflow")
+    }
+}
+//@@ end
+//@@ fn src/uint/sub.rs | impl<const LIMBS: usize> SubAssign<Uint<LIMBS>> for Uint<LIMBS> | sub_assign | body | props C04 C11 C15
+impl<const LIMBS: usize> SubAssign<Uint<LIMBS>> for Uint<LIMBS> {
+fn sub_assign(&mut self, rhs: Uint<LIMBS>)
+//@+
+    ensures final(self).v() == old(self).v() - rhs.v()
+//@-
+{
+        *self = self.sub(&rhs)
+    }
+}
+//@@ end
+//@@ fn src/uint/sub.rs | impl<const LIMBS: usize> SubAssign<&Uint<LIMBS>> for Uint<LIMBS> | sub_assign | body | props C04 C11 C15
+impl<const LIMBS: usize> SubAssign<&Uint<LIMBS>> for Uint<LIMBS> {
+fn sub_assign(&mut self, rhs: &Uint<LIMBS>)
+//@+
+    ensures final(self).v() == old(self).v() - rhs.v()
+//@-
+{
+        *self = self.sub(rhs)
     }
 }
 //@@ end
@@ -260,6 +352,28 @@ fn mul(self, rhs: &Uint<RHS_LIMBS>) -> (ret__: Self::Output)
     }
 }
 //@@ end
+//@@ fn src/uint/mul.rs | impl<const LIMBS: usize, const RHS_LIMBS: usize> MulAssign<Uint<RHS_LIMBS>> for Uint<LIMBS> | mul_assign | body | props C03 C11 C15
+impl<const LIMBS: usize, const RHS_LIMBS: usize> MulAssign<Uint<RHS_LIMBS>> for Uint<LIMBS> {
+fn mul_assign(&mut self, rhs: Uint<RHS_LIMBS>)
+//@+
+    ensures final(self).v() == old(self).v() * rhs.v()
+//@-
+{
+        *self = self.mul(&rhs)
+    }
+}
+//@@ end
+//@@ fn src/uint/mul.rs | impl<const LIMBS: usize, const RHS_LIMBS: usize> MulAssign<&Uint<RHS_LIMBS>> for Uint<LIMBS> | mul_assign | body | props C03 C11 C15
+impl<const LIMBS: usize, const RHS_LIMBS: usize> MulAssign<&Uint<RHS_LIMBS>> for Uint<LIMBS> {
+fn mul_assign(&mut self, rhs: &Uint<RHS_LIMBS>)
+//@+
+    ensures final(self).v() == old(self).v() * rhs.v()
+//@-
+{
+        *self = self.mul(rhs)
+    }
+}
+//@@ end
 //@@ fn src/int/add.rs | impl<const LIMBS: usize> Add for Int<LIMBS> | add | body | props C13 C11 C15
 impl<const LIMBS: usize> Add for Int<LIMBS> {
 //@+
@@ -285,6 +399,28 @@ fn add(self, rhs: &Self) -> (ret__: Self)
 //@-
 {
         CtOption::from(self.checked_add(rhs)).expect("attempted to add with overflow")
+    }
+}
+//@@ end
+//@@ fn src/int/add.rs | impl<const LIMBS: usize> AddAssign for Int<LIMBS> | add_assign | body | props C13 C11 C15
+impl<const LIMBS: usize> AddAssign for Int<LIMBS> {
+fn add_assign(&mut self, other: Self)
+//@+
+    ensures final(self).iv() == old(self).iv() + other.iv()
+//@-
+{
+        *self += &other;
+    }
+}
+//@@ end
+//@@ fn src/int/add.rs | impl<const LIMBS: usize> AddAssign<&Int<LIMBS>> for Int<LIMBS> | add_assign | body | props C13 C11 C15
+impl<const LIMBS: usize> AddAssign<&Int<LIMBS>> for Int<LIMBS> {
+fn add_assign(&mut self, other: &Self)
+//@+
+    ensures final(self).iv() == old(self).iv() + other.iv()
+//@-
+{
+        *self = *self + other;
     }
 }
 //@@ end
